@@ -141,7 +141,8 @@ type world struct {
 
 	rootVals map[string]types.Value
 	rootName map[hash.Hash]string
-	memo     map[string]hash.Hash // canonical model commit -> address
+	memo     map[string]hash.Hash // canonical model commit -> address (guarded by memoMu: stress mode reads and writes it from several goroutines)
+	memoMu   sync.RWMutex
 	dmu      sync.Mutex
 	dec      map[hash.Hash]mval
 
@@ -331,7 +332,10 @@ func (w *world) ref(r string) types.Ref {
 // realize builds the pre-built commit described by the model value (recursively) through the setup handle.
 func (w *world) realize(cv mval) hash.Hash {
 	k := key(cv)
-	if h, ok := w.memo[k]; ok {
+	w.memoMu.RLock()
+	h, ok := w.memo[k]
+	w.memoMu.RUnlock()
+	if ok {
 		return h
 	}
 	var parents []hash.Hash
@@ -343,7 +347,9 @@ func (w *world) realize(cv mval) hash.Hash {
 	must(err)
 	_, err = w.setup.vs.WriteValue(bg, cm.NomsValue())
 	must(err)
+	w.memoMu.Lock()
 	w.memo[k] = cm.Addr()
+	w.memoMu.Unlock()
 	return cm.Addr()
 }
 
@@ -351,7 +357,10 @@ func (w *world) addrOf(cv mval) (hash.Hash, error) {
 	if cv["k"] == "n" {
 		return hash.Hash{}, nil
 	}
-	if h, ok := w.memo[key(cv)]; ok {
+	w.memoMu.RLock()
+	h, ok := w.memo[key(cv)]
+	w.memoMu.RUnlock()
+	if ok {
 		return h, nil
 	}
 	return hash.Hash{}, fmt.Errorf("binding: model commit %s has no concrete counterpart yet", key(cv))
@@ -402,7 +411,9 @@ func (w *world) decode(vr types.ValueReader, addr hash.Hash) mval {
 		out = mval{"k": "c", "r": rn, "ps": ps, "a": string(cm.Name())}
 		w.dmu.Lock()
 		w.dec[addr] = out
+		w.memoMu.Lock()
 		w.memo[key(out)] = addr
+		w.memoMu.Unlock()
 		w.dmu.Unlock()
 	case serial.TagFileID:
 		tg, err := serial.TryGetRootAsTag(data, serial.MessagePrefixSz)
